@@ -179,6 +179,15 @@ Pass2(tmp, e, h, rates, avgs, i) ==
                            IN  [t1 EXCEPT ![tx.t] = NAdd(@, SumSet([j \in back |-> tx.to[j].amt], back))]
             IN  Pass2(t2, e, h, rates, avgs, i + 1)
 
+\* FAT-2 transaction validity (fat2.Transaction.Validate): a transfer names at least one output and its outputs add up to
+\* exactly the input amount -- over the naturals, not modulo 2^64; a conversion changes the asset.  An entry with an
+\* ill-formed transaction is no batch at all: it is ignored like any other non-canonical content.
+OutSum(tx) == SumSet([j \in 1..Len(tx.to) |-> tx.to[j].amt], 1..Len(tx.to))
+WellFormedTx(tx) == IF tx.kind = "conv" THEN tx.conv # tx.t
+                    ELSE Len(tx.to) >= 1 /\ NLeq(OutSum(tx), tx.amt) /\ NLeq(tx.amt, OutSum(tx))
+WellFormed(e) == \A i \in 1..Len(e.txs) : WellFormedTx(e.txs[i])
+OutputsExceedInput(e) == \E i \in 1..Len(e.txs) : e.txs[i].kind = "xfer" /\ ~NLeq(OutSum(e.txs[i]), e.txs[i].amt)
+
 InUniverse(e) == \A i \in 1..Len(e.txs) : /\ e.txs[i].a \in Addrs /\ e.txs[i].t \in Assets
                                           /\ (e.txs[i].kind = "conv" => e.txs[i].conv \in Assets)
                                           /\ \A j \in 1..Len(e.txs[i].to) : e.txs[i].to[j].a \in Addrs
